@@ -456,6 +456,12 @@ func anchors(ver int) []string {
 }
 
 // genPlan expands a seed into a plan for one property.
+// Worker processes numbered from gcModeBase up are "collector" processes: a
+// few dozen ordinary (not cold) runs, half of them with collector faults.
+const gcModeBase = 200000
+
+var procGCMode bool
+
 func genPlan(seed uint64, prop string) *Plan { return genPlanOpt(seed, prop, false) }
 
 // genPlanOpt: cold plans are for short-lived processes; they skip the
@@ -843,6 +849,32 @@ func genPlanOpt(seed uint64, prop string, cold bool) *Plan {
 		p.PoolDec = append(p.PoolDec, d)
 	}
 	p.Slab = r.chance(0.35) || neigh
+	// collector faults: mostly in short-lived processes (in a long-lived worker a
+	// collection costs as much as ten runs, the process-wide oracle tables have
+	// to be marked, and the heap layout depends on thousands of earlier runs)
+	pGC := 0.002
+	if cold {
+		pGC = 0.1 // a young process: small heap, cheap collections, short history to replay
+	}
+	if procGCMode {
+		pGC = 0.5 // a process of a few dozen runs that exists for these faults
+	}
+	if r.chance(pGC) {
+		p.GCPre = true
+		if len(p.Preempt) == 0 {
+			for t := 0; t < nTasks; t++ {
+				p.Preempt = append(p.Preempt, []int64{int64(1 + r.intn(400)), int64(1 + r.intn(400))})
+			}
+		}
+	}
+	if r.chance(pGC) && !p.AliasArgs {
+		p.EphArgs = true
+		for t := range p.Tasks {
+			for k := r.intn(3); k > 0 && len(p.Tasks[t]) > 0; k-- {
+				p.GCOps = append(p.GCOps, []int{t, r.intn(len(p.Tasks[t]))})
+			}
+		}
+	}
 	p.AliasArgs = r.chance(0.25)
 	if prop == "C14" {
 		for k := r.intn(4); k > 0; k-- {
